@@ -194,6 +194,120 @@ let rdhspec_line line =
       hist := b :: !hist) rdhs;
   String.trim (Buffer.contents buf)
 
+
+(* ------------------------------------------------------------------ scan (C03 C08 C18) *)
+let crc_table =
+  Array.init 256 (fun n ->
+      let c = ref n in
+      for _ = 0 to 7 do
+        if !c land 1 <> 0 then c := (!c lsr 1) lxor 0xEDB88320 else c := !c lsr 1
+      done;
+      !c)
+let crc32_bytes (crc : int) (l : n list) : int =
+  let c = ref (crc lxor 0xFFFFFFFF) in
+  List.iter (fun b -> c := crc_table.((!c lxor int_of_n b) land 0xFF) lxor (!c lsr 8)) l;
+  !c lxor 0xFFFFFFFF
+let crc32_string (s : string) : int =
+  let c = ref 0xFFFFFFFF in
+  String.iter (fun ch -> c := crc_table.((!c lxor Char.code ch) land 0xFF) lxor (!c lsr 8)) s;
+  !c lxor 0xFFFFFFFF
+
+(* N -> decimal string without going through int for large values (they all fit in 63 bits here) *)
+let dec n = string_of_int (int_of_n n)
+
+let field_sig (r : rdh) : string =
+  String.concat ","
+    [ dec r.r_header_id; dec r.r_header_size; dec r.r_fee_id; dec r.r_priority_bit; dec r.r_system_id;
+      dec r.r_rdh0_reserved0; dec r.r_offset_new_packet; dec (rdh_payload_size r); dec r.r_link_id;
+      dec r.r_packet_counter; dec (rdh_cru_id r); dec (rdh_dw r); dec (rdh_bc r); dec (rdh1_reserved0 r);
+      dec r.r_orbit; dec (rdh_data_format r); dec r.r_trigger_type; dec r.r_pages_counter; dec r.r_stop_bit;
+      dec r.r_rdh2_reserved0; dec r.r_detector_field; dec r.r_par_bit; dec r.r_rdh3_reserved0 ]
+
+let fmt_instat = function
+  | IS_fatal m -> Printf.sprintf "X@%X" (int_of_n m)
+  | IS_error (c, m) -> Printf.sprintf "E%d@%X" (int_of_n c) (int_of_n m)
+  | IS_trig t -> "T" ^ dec t | IS_fmt f -> "D" ^ dec f | IS_sysid y -> "Y" ^ dec y
+  | IS_link l -> "L" ^ dec l | IS_fee f -> "F" ^ dec f
+  | IS_seen n -> "S" ^ dec n | IS_filtered n -> "R" ^ dec n | IS_payload n -> "P" ^ dec n
+
+let parse_scfg src filter skip =
+  let flt =
+    match String.split_on_char ':' filter with
+    | [ "link"; v ] -> Some (F_link (n_of_int (int_of_string v)))
+    | [ "fee"; v ] -> Some (F_fee (n_of_int (int_of_string v)))
+    | [ "stave"; v ] -> Some (F_stave (n_of_int (int_of_string v)))
+    | _ -> None in
+  { sc_filter = flt; sc_skip = (skip = "1"); sc_src = (if src = "pipe" then Src_pipe else Src_file) }
+
+let fmt_cdp (p : cdp) =
+  Printf.sprintf "%X:%d:%08X:%08X" (int_of_n p.c_off) (List.length p.c_payload)
+    (crc32_bytes (crc32_bytes 0 (encode_rdh p.c_rdh)) p.c_payload)
+    (crc32_string (field_sig p.c_rdh))
+
+let scan_with mode line =
+  match split_ws line with
+  | [ src; filter; skip; hex ] ->
+      let input = if hex = "-" then [] else bytes_of_hex hex in
+      if List.length input < 8 then "NO_RDH0"
+      else begin
+        let c = parse_scfg src filter skip in
+        let o = match mode with `Impl -> scan_impl c input | `Fixed -> scan true c input in
+        let bs = List.map (fun b -> String.concat " " (List.map fmt_cdp b)) o.so_batches in
+        (if bs = [] then "-" else String.concat " / " bs) ^ " | " ^ String.concat " " (List.map fmt_instat o.so_stats)
+        ^ (match o.so_end with End_fuel -> " | FUEL" | _ -> "")
+      end
+  | _ -> "unknown"
+
+(* written: same line format as scan; bytes the writer produces, as "<length> <crc32>" *)
+let written_line line =
+  match split_ws line with
+  | [ src; filter; skip; hex ] ->
+      let input = if hex = "-" then [] else bytes_of_hex hex in
+      if List.length input < 8 then "NO_RDH0"
+      else begin
+        let c = parse_scfg src filter skip in
+        let out = written (n_of_int 1048576) c input in
+        Printf.sprintf "%d %08X" (List.length out) (crc32_bytes 0 out)
+      end
+  | _ -> "unknown"
+
+(* wordspec: same line format as `link`; for every payload word, in order, the class the FSM assigns
+   (model of advance, proved equal to the documented diagram in C09) and the documented sanity verdict
+   for that class (Spec/WordLayout.v): "<class>:<ok>" ; packets separated by "/" ; "P" = payload skipped *)
+let wordspec_line line =
+  let _, body = split_head line in
+  let cdps = parse_cdps body in
+  let st = ref S_InitialIHW in
+  String.concat " / "
+    (List.map
+       (fun p ->
+         match preprocess p.c_payload with
+         | Prep_err _ -> st := S_InitialIHW; "P"
+         | Prep_ok (_, chunks) ->
+             if p.c_payload = [] then "-" else
+             String.concat " "
+               (List.map
+                  (fun ch ->
+                    let w = take (nat_of_int 10) ch in
+                    let st', r = advance !st w in
+                    st := st';
+                    let cls = int_of_n (fres_id r) in
+                    let ok =
+                      match r with
+                      | F_ok P_IHW | F_ok P_IHW_cont -> b2s (ihw_okb w)
+                      | F_ok P_TDH | F_ok P_TDH_cont | F_ok P_TDH_after_done | F_amb A_TDH_or_DDW0 -> b2s (tdh_okb w)
+                      | F_ok P_TDT -> b2s (tdt_okb w)
+                      | F_ok P_DDW0 | F_amb A_DDW0_or_TDH_IHW -> b2s (ddw0_okb w)
+                      | _ -> "-" in
+                    Printf.sprintf "%d:%s" cls ok)
+                  chunks))
+       cdps)
+
+let rdhrt_line line =
+  let b = bytes_of_hex (String.trim line) in
+  let r = decode_rdh b in
+  hex_of_bytes (encode_rdh r) ^ " " ^ field_sig r
+
 let () =
   let stream = Sys.argv.(1) in
   let handler =
@@ -203,6 +317,11 @@ let () =
     | "link" -> link_line
     | "dispatch" -> dispatch_line
     | "prep" -> prep_line
+    | "scan" -> scan_with `Impl
+    | "scanfixed" -> scan_with `Fixed
+    | "written" -> written_line
+    | "rdhrt" -> rdhrt_line
+    | "wordspec" -> wordspec_line
     | "rdhspec" -> rdhspec_line
     | _ -> prerr_endline ("unknown stream " ^ stream); exit 2
   in
